@@ -2,6 +2,7 @@
 import os
 
 MOD = {
+    "common.rs": "verif_models::common",
     "sketch.rs": "common::frequency_sketch::verif_sketch",
     "deque.rs": "common::deque::verif_deque",
     "builder_utils.rs": "common::builder_utils::verif_builder_utils",
@@ -17,18 +18,21 @@ MOD = {
 
 class Harness:
     def __init__(self, file, fn, props, tier="quick", cost=5, what="", bounds="", timeout=None,
-                 expect_fail=False, real_map_replay=False):
+                 expect_fail=False, real_map_replay=False, quick=None, required=()):
         self.file = file
         self.fn = fn
         self.name = MOD[file] + "::" + fn
         self.props = set(props)
         self.tier = tier            # "quick": both tiers; "thorough": thorough only
+        # properties for which this query is part of the QUICK tier (default: all its properties)
+        self.quick = set(quick) if quick is not None else set(props)
         self.cost = cost            # measured seconds (scheduling order, default timeout = 10x, min 120)
         self.timeout = timeout or max(120, int(cost * 10))
         self.what = what
         self.bounds = bounds
         self.expect_fail = expect_fail
         self.real_map_replay = real_map_replay
+        self.required = tuple(required)   # cover! messages that must be SATISFIED (besides 'end ... reached')
 
 H = []
 def add(*a, **k):
@@ -57,9 +61,81 @@ for cap in (0, 1, 3, 5, 8):
 add("sketch.rs", "l5_sketch_capacity_clamp", {"C14", "C08"}, "quick", 1, "sketch_capacity clamps to 128..=u32::MAX", "all u64")
 add("sketch.rs", "l0_empty_sketch_is_inert", {"C14", "C08"}, "quick", 1, "disabled sketch records nothing", "")
 
+# ------------------------------------------------------------------ DQ: intrusive list (C08, C11, C12)
+for op, props in (("mtb", {"C08", "C12", "C11"}), ("unlink", {"C08", "C11"}), ("unlinkdrop", {"C08", "C11"}), ("pop", {"C08", "C11", "C12"}),
+                  ("push", {"C08", "C11", "C12"}), ("mftb", {"C08", "C12"}), ("next", {"C08"}), ("peek", {"C08", "C12"}), ("drop", {"C08", "C11"})):
+    lens = (1, 2, 3, 4) if op in ("mtb", "unlink", "unlinkdrop") else (0, 1, 2, 3, 4)
+    for ln in lens:
+        add("deque.rs", f"dq_{op}_{ln}", props, "quick" if ln <= 3 else "thorough", 3,
+            f"Deque::{op} from an arbitrary well-formed list, symbolic cursor and target", f"list length {ln}")
+add("deque.rs", "dq_twin_must_fail", {"C08", "C11", "C12"}, "quick", 3, "vacuity twin of the deque family", "list length 3", expect_fail=True)
+
+# ------------------------------------------------------------------ U: unsync cache, one real operation from an Inv-state
+import re as _re
+def _unsync():
+    src = open(os.path.join(os.path.dirname(os.path.dirname(os.path.abspath(__file__))), "kani", "unsync_cache.rs")).read()
+    GET = {"C01", "C03", "C10", "C12", "C14"}
+    CON = {"C01", "C03", "C15", "C14", "C10", "C06"}
+    ITER = {"C01", "C03", "C16", "C15"}
+    INSN = {"C01", "C03", "C04", "C10", "C12", "C13", "C14"}
+    INSU = {"C01", "C04", "C10", "C12", "C14"}
+    INV = {"C07", "C01", "C03", "C10", "C14"}
+    EXP = {"C05", "C06"}
+    for m in _re.finditer(r"^uh(_real_purge)?!\((\w+), \d+, (op_\w+)::<(\w+)>\(&cfgt?\((\d), (.*)\);$", src, _re.M):
+        real, name, op, hs, n, tail = m.groups()
+        mm = _re.search(r"(true|false), (?:W1|WT_\w+), (true|false), (true|false), WO_\w+, (?:true|false)(?:, \d)?\)(.*)\)$", tail)
+        ttl, tti = mm.group(2) == "true", mm.group(3) == "true"
+        rest = mm.group(4).lstrip(", ")
+        sym_time = name.endswith("_sym")
+        props = {"op_get": GET, "op_contains": CON, "op_iter": ITER, "op_invalidate": INV, "op_invalidate_all": INV,
+                 "op_invalidate_if": INV, "op_evict_lru": {"C04", "C12", "C10"}, "op_evict_expired": {"C10", "C03", "C11"}}.get(op)
+        if op == "op_insert":
+            props = INSU if "_upd" in name else INSN
+        props = set(props) | {"C08"}
+        if ttl: props |= {"C05"}
+        if tti: props |= {"C06"}
+        if "nocap" in name: props |= {"C17"}
+        if op == "op_evict_lru" and "within" in name: props |= {"C03"}
+        tier = "thorough" if sym_time or "_n3_" in name else "quick"
+        prim = {"op_get": {"C01", "C12", "C14"}, "op_contains": {"C15"}, "op_iter": {"C16", "C15"},
+                "op_invalidate": {"C07"}, "op_invalidate_all": {"C07", "C10"}, "op_invalidate_if": {"C07", "C10"},
+                "op_evict_lru": {"C04", "C12"}, "op_evict_expired": {"C10", "C03", "C11"}}.get(op, set())
+        if op == "op_insert":
+            prim = {"C01", "C10"} if "_upd" in name else {"C03", "C04", "C13", "C12"}
+        prim = set(prim)
+        if ttl: prim |= {"C05"}
+        if tti: prim |= {"C06"}
+        if name in ("get_hit0_n2_full", "insert_new_n2_full", "insert_upd_n2_w_grow", "invalidate_if_n2_w_m0001", "iter_n2", "contains_n2_full",
+                    "evict_lru_n2_grown", "purge_tti_on_deadline_w", "get0_ttl_on_deadline_realpurge", "insert_new_n2_zero_victim", "invalidate_all_both"):
+            prim |= {"C08"}
+        if name in ("insert_new_n2_room", "insert_new_n2_w_fits", "insert_new_ttl_room", "purge_both_zero_dur_w", "invalidate1_n2_w"):
+            prim |= {"C11"}
+        if name in ("insert_new_n2_full", "insert_new_n2_w_admit", "insert_upd_n2_w_shrink", "insert_upd_n2_w_grow", "invalidate1_n2_w", "evict_lru_n2_grown"):
+            prim |= {"C10"}
+        if name in ("contains_n2_full", "iter_n2", "insert_new_n2_full", "invalidate0_n2"):
+            prim |= {"C14"}
+        cost = 60
+        if sym_time: cost = 300
+        if real and not sym_time: cost = 90
+        bounds = f"n={n} residents (keys concrete, LRU order = key order), hasher {hs}; " + \
+                 ("clock, ttl/tti (<= 1000 y), all timestamps symbolic at ns resolution; " if sym_time else ("concrete time class; " if (ttl or tti) else "no expiry; ")) + \
+                 "capacity and weight table concrete; values, sketch contents, predicate masks symbolic; " + \
+                 ("real evict_expired" if real else "evict_expired replaced by a no-op (decided by the purge_* queries)")
+        add("unsync_cache.rs", name, props, tier, cost, f"unsync {op[3:]}({rest or ''}) [{name}]", bounds, real_map_replay=True, quick=prim,
+            required=("admitted over victims", "newcomer rejected") if name in ("insert_new_n2_full", "insert_new_n2_w_admit", "insert_new_ttl_full", "insert_new_tti_full", "insert_new_both_full", "insert_new_n2_zero_victim") else ())
+_unsync()
+add("unsync_cache.rs", "k1_is_expired_wo_iff_deadline_passed", {"C05", "C08"}, "quick", 5, "is_expired_entry_wo <=> lm + ttl <= now", "all instants < 2^36 s, ttl <= 1000 y, ns resolution")
+add("unsync_cache.rs", "k1_is_expired_ao_iff_deadline_passed", {"C06", "C08"}, "quick", 5, "is_expired_entry_ao <=> la + tti <= now", "all instants < 2^36 s, tti <= 1000 y, ns resolution")
+add("unsync_cache.rs", "k1_is_expired_entry_reads_the_entrys_own_nodes", {"C05", "C06", "C16", "C08"}, "quick", 60, "is_expired_entry(entry) (iteration filter) <=> that entry's deadlines", "n=2, symbolic times")
+add("common.rs", "raw_instant_layout_matches_std", {"C05", "C06"}, "quick", 2, "harness assumption: layout of std::time::Instant", "all instants")
+add("unsync_cache.rs", "unsync_twin_must_fail", {"C01", "C03", "C04", "C05", "C06", "C07", "C08", "C10", "C12", "C13", "C15", "C16"}, "quick", 60,
+    "vacuity twin of the unsync family", "n=2", expect_fail=True)
+
 PROPS = {}
 def plan(prop, tier):
-    return [h for h in H if prop in h.props and (tier == "thorough" or h.tier == "quick")]
+    if tier == "thorough":
+        return [h for h in H if prop in h.props]
+    return [h for h in H if prop in h.props and h.tier == "quick" and prop in h.quick]
 
 def refresh_props():
     PROPS.clear()
